@@ -279,6 +279,7 @@ def check(c, tier, replay):
     c.assumptions += ['the state word is swapped in the step resuming from cb.cas, the deadline is compared in the step resuming from cb.deadline.load (hook placement)',
                       'one breaker (error-count strategy) per resource; the three strategies share the transition code',
                       'exhaustive interleavings only for the bounded configurations listed in tlc_runs']
+    if thorough: import stages; stages.run_stage(c, 'REFINE', 'refinement_stage')   # BreakerConc => Breaker, WindowConc => Window, AdmitPath => FlowQps / Isolation (checks/REFINE.py)
 
 
 main('C12', check)
